@@ -7,7 +7,8 @@ const { analyze } = require('../lib/structan')
 const { cfg, STRING_METHODS } = require('../lib/configs')
 const { Rng, hashStr, clip, chunk } = require('../lib/util')
 
-const VERBOSITIES = [undefined, 'OFF', 'MANDATORY', 'INFORMATION', 'DEBUG', 'debug', 'Off', 'junk']
+// (unknown words - including the empty string, prefixes of a level name and names with surrounding blanks - mean the documented default)
+const VERBOSITIES = [undefined, 'OFF', 'MANDATORY', 'INFORMATION', 'DEBUG', 'debug', 'Off', 'junk', '', 'o', 'Of', 'd', 'DEB', 'INFO', 'M', 'OFFF', ' OFF', 'DEBUG ', 'mandatory', 'o\uFB00']
 function effective (v) {
   if (v === undefined) return 'INFORMATION'
   const u = String(v).toUpperCase()
